@@ -3,6 +3,7 @@ C16: cut_prefix for streams of stored blocks, part 2 — the shortened block, th
 fallback, and the walk.
 -/
 import WuffsVerif.Proof.Flate.StoredCut
+import WuffsVerif.Proof.Flate.SpecEmptyFixed
 
 namespace WuffsVerif.Flate.Cut
 open WuffsVerif.Gen.C16 WuffsVerif.Flate.Spec
@@ -113,5 +114,28 @@ theorem good_shorten (s : Bytes) (pre : List Bytes) (d tail b : Bytes) (fin : Bo
   have := inflate_stored _ pre (d.extract 0 r) h1 (by rw [hq0]; exact h2)
   rw [hq0, hdsz, he] at this
   rw [this, extract_mid _ _ _ _ (by omega)]
+
+/-! ### the single-block fallback -/
+
+theorem extract_prefix_of_append (o rest : Bytes) (n : Nat) (h : n ≤ o.size) :
+    (o ++ rest).extract 0 n = o.extract 0 n := by
+  rw [Array.extract_append]
+  have : n - o.size = 0 := by omega
+  simp [this]
+
+/-- A final stored block written by `writeStored`, read back. -/
+theorem blkAt_header (A : Bytes) (n : Nat) (hn : A.size = n) (h16 : n ≤ 65535) :
+    BlkAt (storedHeader n ++ A) 0 A true := by
+  have h5 : (storedHeader n).size = 5 := rfl
+  have g : ∀ i, i < 5 → (storedHeader n ++ A).getD i 0 = (storedHeader n).getD i 0 := by
+    intro i hi
+    simp only [Array.getD_eq_getD_getElem?]
+    rw [Array.getElem?_append_left (by omega)]
+  refine ⟨?_, ?_, ?_, by omega, by simp [h5, hn], ?_⟩
+  · rw [g 0 (by omega)]; simp [storedHeader]
+  · rw [g 1 (by omega), g 2 (by omega)]; simp [storedHeader]; omega
+  · rw [g 3 (by omega), g 4 (by omega)]; simp [storedHeader]; omega
+  · rw [Array.extract_append]
+    simp [h5]
 
 end WuffsVerif.Flate.Cut
